@@ -350,6 +350,12 @@ def _check_no_other_refusal(res: Result, proj: Project, cg):
                 e = n.exc.func if isinstance(n.exc, ast.Call) else n.exc
                 name = (dotted(e) or "").split(".")[-1]
                 n_raise += 1
+                if isinstance(e, ast.Name) and e.id in f.param_names:
+                    # `raise exception` where the class to raise is a parameter: the refusal belongs to the callers that
+                    # choose the class; it is judged by what guards it here
+                    if _guarded_by_predicate(n, f):
+                        continue
+                    name = "<the exception class passed as `%s`>" % e.id
                 if name == "NotImplementedError" or ((f.cls.name if f.cls is not None else ""), name) in allowed:
                     continue
                 if name in refusal_family and _guarded_by_predicate(n, f):
